@@ -300,7 +300,8 @@ fn run_subnets(addr_set: u64, trace: bool) -> CaseResult {
 
 fn run_removal(ev: u64, both_learned: bool, trace: bool) -> CaseResult {
     // ev: 0 sim1 gone, 1 sim1 gone then back, 2 disable sim1 by name, 3 disable IPv4 everywhere,
-    //     4 disable IndexV4(sim1), 5 address of sim1 replaced by another subnet
+    //     4 disable IndexV4(sim1), 5 address of sim1 replaced by another subnet,
+    //     6 IPv6 disabled from the start, then sim1 loses its IPv4 address and keeps the IPv6 one
     let mut res = CaseResult::default();
     let mut table = vec![v4("sim0", IF0, "10.0.0.1", 24), v4("sim1", IF1, "10.0.1.1", 24), v6("sim1", IF1, "fd00:1::1", 64)];
     let mut w = World::one(table.clone());
@@ -310,6 +311,10 @@ fn run_removal(ev: u64, both_learned: bool, trace: bool) -> CaseResult {
     w.add_mon(0, mon);
     w.poke(0);
     w.advance(5100); // the first periodic check still follows the default interval
+    if ev == 6 {
+        w.ds[0].h.disable_interface(IfKind::IPv6).unwrap();
+        w.poke(0);
+    }
     let rx = w.ds[0].h.browse("_t._tcp.local.").unwrap();
     let ch = w.add_browse(0, rx);
     w.poke(0);
@@ -345,6 +350,10 @@ fn run_removal(ev: u64, both_learned: bool, trace: bool) -> CaseResult {
             w.ds[0].h.disable_interface(IfKind::IndexV4(IF1)).unwrap();
             w.poke(0);
         }
+        6 => {
+            table.retain(|i| !(i.index == IF1 && i.ip.is_ipv4()));
+            w.ds[0].ctl.set_intfs(table.clone());
+        }
         _ => {
             table.retain(|i| !(i.index == IF1 && i.ip.is_ipv4()));
             table.push(v4("sim1", IF1, "10.0.7.1", 24));
@@ -360,10 +369,10 @@ fn run_removal(ev: u64, both_learned: bool, trace: bool) -> CaseResult {
     }
     w.advance(1000);
     let evs: Vec<(u64, BEv)> = bevs(&w, 0, ch, lix);
-    let tag = ["interface-gone", "interface-gone-and-back", "disable-by-name", "disable-ipv4", "disable-indexv4", "address-moved-to-other-subnet"][ev as usize];
+    let tag = ["interface-gone", "interface-gone-and-back", "disable-by-name", "disable-ipv4", "disable-indexv4", "address-moved-to-other-subnet", "last-enabled-address-gone-disabled-family-stays"][ev as usize];
     res.count("removal_cases_checked", 1);
     // instance learned only on the removed interface
-    if matches!(ev, 0 | 1) {
+    if matches!(ev, 0 | 1 | 6) {
         if !evs.iter().any(|(_, e)| matches!(e, BEv::Removed(_, f) if *f == ia.fullname())) {
             res.viols.push(viol(format!("C18|no-ServiceRemoved-for-instance-learned-only-on-the-removed-interface|{tag}"), format!("events after the change: {:?}", evs.iter().map(|(t, e)| (t - T0, format!("{e:?}"))).collect::<Vec<_>>())));
         }
@@ -381,7 +390,7 @@ fn run_removal(ev: u64, both_learned: bool, trace: bool) -> CaseResult {
         }
     }
     // the shared instance: resolved again without the lost address (when it lost one)
-    if both_learned && ev == 0 {
+    if both_learned && matches!(ev, 0 | 6) {
         let again = evs.iter().rev().find_map(|(_, e)| match e { BEv::Resolved(r) if r.fullname == ib.fullname() => Some(r.clone()), _ => None });
         match again {
             Some(r) if r.addrs.iter().all(|ad| ad.ip != ip4([10, 0, 1, 10])) => res.count("resolved_again_without_lost_records", 1),
@@ -401,7 +410,7 @@ fn run_removal(ev: u64, both_learned: bool, trace: bool) -> CaseResult {
     let want_del: BTreeSet<IpAddr> = match ev {
         0 | 1 | 2 => ["10.0.1.1".parse().unwrap(), "fd00:1::1".parse().unwrap()].into_iter().collect(),
         3 => ["10.0.0.1".parse().unwrap(), "10.0.1.1".parse().unwrap()].into_iter().collect(),
-        4 | 5 => ["10.0.1.1".parse().unwrap()].into_iter().collect(),
+        4 | 5 | 6 => ["10.0.1.1".parse().unwrap()].into_iter().collect(),
         _ => BTreeSet::new(),
     };
     if dels != want_del {
@@ -699,10 +708,10 @@ pub fn check(tier: &str) -> i32 {
     rep.run_part(&sub, Duration::from_secs(120));
     let rem = FnPart {
         name: "interface-removal-and-disabling".into(),
-        rule: "browse + hostname resolver; one instance learned only on sim1, one on sim0 (optionally with a second address learned on sim1); then sim1 disappears / disappears and returns / is disabled by name / IPv4 is disabled / IndexV4 is disabled / its address moves to another subnet".into(),
-        n: 12,
-        describe: Box::new(|i| format!("event {} both_learned {}", i % 6, i / 6 == 1)),
-        run: Box::new(|i, tr| run_removal(i % 6, i / 6 == 1, tr)),
+        rule: "browse + hostname resolver; one instance learned only on sim1, one on sim0 (optionally with a second address learned on sim1); then sim1 disappears / disappears and returns / is disabled by name / IPv4 is disabled / IndexV4 is disabled / its address moves to another subnet / (IPv6 disabled from the start) it loses its IPv4 address and keeps the IPv6 one".into(),
+        n: 14,
+        describe: Box::new(|i| format!("event {} both_learned {}", i % 7, i / 7 == 1)),
+        run: Box::new(|i, tr| run_removal(i % 7, i / 7 == 1, tr)),
     };
     rep.run_part(&rem, Duration::from_secs(120));
     let adepth = if thorough { 6 } else { 4 };
